@@ -812,6 +812,25 @@ def read_back(path):
     return out
 
 
+def read_back_dispatch(path):
+    """the same file through the entry point that chooses the parser by file extension, `open_coordinate_file(path)`.
+    None when it refuses the file, else a short description.  (Seed C14-11: a
+    lenient subclass of GroFile that inherits EXTENSIONS registers itself OVER GroFile in the parser table.)"""
+    from gaddlemaps.parsers import open_coordinate_file
+    with warnings.catch_warnings():
+        warnings.simplefilter("ignore")
+        try:
+            r = open_coordinate_file(path)
+            try:
+                n = len(r.readlines())
+            finally:
+                r.close()
+            return {"via": "open_coordinate_file", "records": n}
+        except Exception:   # noqa: BLE001
+            pass
+    return None     # (SystemGro / System / Manager open coordinate files through the same dispatch)
+
+
 def _reader_header(r):
     bm = priv(r, "_box_matrix")
     return (priv(r, "_comment"), priv(r, "_natoms"), priv(r, "_init_position"), priv(r, "_atomline_bytesize"),
